@@ -779,11 +779,47 @@ var c04ScopeE2ESpecModel = &Model{
 
 // c04InCore: the fragment the Coq label machine (and resolution_correct) covers: Block, anonymous
 // Func whose parameter list has no default values, Decl var/let/function/param, Ref
-func c04InCore(l []*c04Item, ctx int) bool {
+// c04AllNames mirrors Spec.allnames: every name that occurs in the list
+func c04AllNames(l []*c04Item) []int {
+	var out []int
 	for _, it := range l {
 		switch it.kind {
+		case c04KRef, c04KPRef, c04KDecl, c04KArrowId:
+			out = append(out, it.x)
+		case c04KFunc, c04KClass:
+			if it.nm >= 0 {
+				out = append(out, it.nm)
+			}
+		}
+		out = append(out, c04AllNames(it.a)...)
+		out = append(out, c04AllNames(it.b)...)
+	}
+	return out
+}
+
+// c04DefaultNames mirrors Spec.default_names: the names mentioned by the default values of a parameter list
+func c04DefaultNames(ps []*c04Item) []int {
+	var out []int
+	for _, it := range ps {
+		if it.kind != c04KDecl {
+			out = append(out, c04AllNames([]*c04Item{it})...)
+		}
+	}
+	return out
+}
+
+func c04FuncInCore(it *c04Item) bool {
+	return c04InCore(it.a, 1) && c04InCore(it.b, 0) &&
+		!c04Intersects(c04DefaultNames(it.a), append(c04VarNames(it.b), c04LexNames(it.b)...))
+}
+
+// c04InCore mirrors Spec.core_d (ctx 0), Spec.pcore_d (ctx 1) and Spec.catch_params_only (ctx 2): the fragment
+// for which resolution_correct_partial is proved
+func c04InCore(l []*c04Item, ctx int) bool {
+	for i, it := range l {
+		switch it.kind {
 		case c04KRef:
-			if ctx != 0 {
+			if ctx == 2 || ctx == 1 && c04Intersects([]int{it.x}, c04HeadNames(l[i+1:])) {
 				return false
 			}
 		case c04KDecl:
@@ -794,12 +830,11 @@ func c04InCore(l []*c04Item, ctx int) bool {
 			if ctx != 0 || !c04InCore(it.b, 0) {
 				return false
 			}
-		case c04KFunc:
-			if ctx != 0 || it.nm >= 0 || !c04InCore(it.a, 1) || !c04InCore(it.b, 0) {
+		case c04KFunc, c04KArrow:
+			if ctx == 2 || it.kind == c04KFunc && it.nm >= 0 || !c04FuncInCore(it) {
 				return false
 			}
-		case c04KArrow:
-			if ctx != 0 || !c04InCore(it.a, 1) || !c04InCore(it.b, 0) {
+			if ctx == 1 && c04Intersects(append(c04AllNames(it.a), c04AllNames(it.b)...), c04HeadNames(l[i+1:])) {
 				return false
 			}
 		case c04KCatch:
@@ -811,6 +846,23 @@ func c04InCore(l []*c04Item, ctx int) bool {
 		}
 	}
 	return true
+}
+
+// c04HasDefaults: some parameter list has a default value (the newest part of the fragment)
+func c04HasDefaults(l []*c04Item) bool {
+	for _, it := range l {
+		if it.kind == c04KFunc || it.kind == c04KArrow {
+			for _, q := range it.a {
+				if q.kind != c04KDecl {
+					return true
+				}
+			}
+		}
+		if c04HasDefaults(it.a) || c04HasDefaults(it.b) {
+			return true
+		}
+	}
+	return false
 }
 
 // c04InCoreOld: no arrow, no catch (to steer the generator towards the newer part of the fragment)
@@ -842,6 +894,12 @@ func c04E2eAMImpl(c Case) []int64 {
 		}
 		res = append(res, g)
 	}
+	// the harness's reading of the fragment must not be wider than Spec.core_d
+	if c04InCore(l, 0) {
+		res = append(res, 1)
+	} else {
+		res = append(res, 0)
+	}
 	return res
 }
 
@@ -867,6 +925,14 @@ var c04ScopeE2EAMModel = &Model{
 		for i, got := 0, 0; i < 20*n && got < n/2; i++ {
 			l := c04GenProgram(r, 3+i%25, false)
 			if c04InCore(l, 0) && !c04InCoreOld(l) {
+				got++
+				emit(c04E2eCase("scope_e2e_am", l, "random: "))
+			}
+		}
+		// the fragment with default values
+		for i, got := 0, 0; i < 40*n && got < n/2; i++ {
+			l := c04GenProgram(r, 3+i%25, false)
+			if c04HasDefaults(l) && c04InCore(l, 0) {
 				got++
 				emit(c04E2eCase("scope_e2e_am", l, "random: "))
 			}
